@@ -1245,6 +1245,312 @@ end DpapiNg.Gen
     return out
 
 
+# ---------------------------------------------------------------------------------------------
+# ASN.1 reader programs: an `unpack` classmethod of _pkcs7.py / _blob.py made of `reader = <reader>.read_sequence(...)`,
+# `x = reader.read_*(...)`, `header = reader.peek_header()`, `x = None`, `if header.tag… == …:`, `if reader:`, `x = Cls.unpack(reader…)`,
+# the `while set_reader:` loop and a final `return Cls(kw=x, …)` is translated statement by statement into a
+# `List RProg.Op × RProg.Ret`; `Proofs/RProg.lean` proves the hand-written unpack model is the interpretation of that program.
+def R(name, props, file, cls, model):
+    return dict(name=name, props=props, file=file, func=cls + ".unpack", kind="rprog", loc=("rprog",), model=model,
+                imports=["Proofs.RProg"], typ="List RProg.Op × RProg.Ret")
+
+
+KERNELS += [
+    R("RProgAlgId", ["C06", "C05"], "_pkcs7.py", "AlgorithmIdentifier", "Blob.algIdRProg"),
+    R("RProgOtherAttr", ["C06", "C05"], "_pkcs7.py", "OtherKeyAttribute", "Blob.otherAttrRProg"),
+    R("RProgKekId", ["C06", "C05"], "_pkcs7.py", "KEKIdentifier", "Blob.kekIdRProg"),
+    R("RProgKekRi", ["C06", "C05", "C04"], "_pkcs7.py", "KEKRecipientInfo", "Blob.kekRiRProg"),
+    R("RProgRecipientInfo", ["C06", "C05"], "_pkcs7.py", "RecipientInfo", "Blob.recipientInfoRProg"),
+    R("RProgEncContentInfo", ["C06", "C05", "C04"], "_pkcs7.py", "EncryptedContentInfo", "Blob.encContentInfoRProg"),
+    R("RProgEnvelopedData", ["C06", "C05"], "_pkcs7.py", "EnvelopedData", "Blob.envelopedDataRProg"),
+    R("RProgContentInfo", ["C06", "C05"], "_pkcs7.py", "ContentInfo", "Blob.contentInfoRProg"),
+    R("RProgProtDesc", ["C06", "C05", "C08"], "_blob.py", "ProtectionDescriptor", "Blob.protDescRProg"),
+]
+
+_READ_OPS = {"read_object_identifier": "readOid", "read_integer": "readInt", "read_octet_string": "readOctets",
+             "read_utf8_string": "readUtf8", "read_generalized_time": "readGenTime"}
+_ERRS = {"NotImplementedError": ".notImplemented", "ValueError": ".valueError"}
+
+
+def _enum_values(file, cls):
+    t = ast.parse(open(os.path.join(SRC, file)).read())
+    out = {}
+    for st in _class_node(t, cls).body:
+        if isinstance(st, ast.Assign) and len(st.targets) == 1 and isinstance(st.targets[0], ast.Name) and isinstance(st.value, ast.Constant):
+            out[st.targets[0].id] = st.value.value
+    return out
+
+
+def _oid_arcs(text):
+    parts = text.split(".")
+    if not parts or not all(p.isdigit() for p in parts):
+        raise Unsupported(f"not a dotted OID: {text!r}")
+    return "[" + ", ".join(str(int(p)) for p in parts) + "]"
+
+
+def rprog(fn, clsnode, tree):
+    body = [st for st in fn.body if not (isinstance(st, ast.Expr) and isinstance(st.value, ast.Constant))]
+    params = [a.arg for a in fn.args.args]
+    if params[:1] != ["cls"] or len(params) < 2 or params[1] not in ("reader", "data") or params[2:] not in ([], ["header"]):
+        raise Unsupported(f"unpack parameters {params}")
+    tag_classes, _ = _tag_classes()
+    type_tags = _enum_values("_asn1.py", "TypeTagNumber")
+    st_ = {"rd": params[1] if params[1] == "reader" else None, "data": params[1] if params[1] == "data" else None,
+           "tags": {}, "alias": {"header.tag": "header.tag"}, "set_readers": {}}
+
+    def use_header(call, allowed=("header", "hint")):
+        """True when the call passes header=header; other keywords must be `hint` (diagnostics only)"""
+        used = False
+        for kw in call.keywords:
+            if kw.arg not in allowed:
+                raise Unsupported(f"keyword {kw.arg} in {ast.unparse(call)[:60]}")
+            if kw.arg == "header":
+                if ast.unparse(kw.value) != "header":
+                    raise Unsupported(f"header={ast.unparse(kw.value)}")
+                used = True
+        return used
+
+    def tag_of(node):
+        if isinstance(node, ast.Name) and node.id in st_["tags"]:
+            return st_["tags"][node.id]
+        return _asn1_tag(node, clsnode)
+
+    def header_test(test):
+        """`<header.tag>.tag_class == TagClass.X and <header.tag>.tag_number == <number>` → (cls, num)"""
+        if not (isinstance(test, ast.BoolOp) and isinstance(test.op, ast.And) and len(test.values) == 2):
+            raise Unsupported(f"condition {ast.unparse(test)[:60]}")
+        vals = {}
+        for cmp_ in test.values:
+            if not (isinstance(cmp_, ast.Compare) and len(cmp_.ops) == 1 and isinstance(cmp_.ops[0], ast.Eq)):
+                raise Unsupported(f"condition {ast.unparse(cmp_)[:60]}")
+            left, right = ast.unparse(cmp_.left), ast.unparse(cmp_.comparators[0])
+            base, _, attr = left.rpartition(".")
+            if st_["alias"].get(base) != "header.tag" or attr not in ("tag_class", "tag_number") or attr in vals:
+                raise Unsupported(f"condition on {left}")
+            if attr == "tag_class":
+                if not right.startswith("TagClass.") or right[9:] not in tag_classes:
+                    raise Unsupported(f"tag class {right}")
+                vals[attr] = tag_classes[right[9:]]
+            else:
+                if right.startswith("TypeTagNumber.") and right[14:] in type_tags:
+                    vals[attr] = type_tags[right[14:]]
+                elif right.endswith(".choice") and right.count(".") == 1:
+                    vals[attr] = _field_default(_class_node(tree, right[:-7]), "choice")
+                elif right.isdigit():
+                    vals[attr] = int(right)
+                else:
+                    raise Unsupported(f"tag number {right}")
+        if set(vals) != {"tag_class", "tag_number"}:
+            raise Unsupported(f"condition {ast.unparse(test)[:60]}")
+        return vals["tag_class"], vals["tag_number"]
+
+    def err_of(raise_st):
+        if not (isinstance(raise_st, ast.Raise) and isinstance(raise_st.exc, ast.Call) and ast.unparse(raise_st.exc.func) in _ERRS):
+            raise Unsupported(f"raise form {ast.unparse(raise_st)[:60]}")
+        return _ERRS[ast.unparse(raise_st.exc.func)]
+
+    def enter_chain(value):
+        """<reader | ASN1Reader(data)>.read_sequence(...)[.read_sequence()…] → [useHdr, …] or None"""
+        flags = []
+        node = value
+        while isinstance(node, ast.Call) and isinstance(node.func, ast.Attribute) and node.func.attr == "read_sequence":
+            if node.args:
+                raise Unsupported("positional argument to read_sequence")
+            flags.append(use_header(node))
+            node = node.func.value
+        if not flags:
+            return None
+        if isinstance(node, ast.Name) and node.id == st_["rd"]:
+            pass
+        elif st_["rd"] is None and ast.unparse(node) == f"ASN1Reader({st_['data']})":
+            pass
+        else:
+            raise Unsupported(f"read_sequence on {ast.unparse(node)[:40]}")
+        return list(reversed(flags))
+
+    def stmts(sts, top):
+        ops, ret, i = [], None, 0
+        while i < len(sts):
+            st = sts[i]
+            last = top and i == len(sts) - 1
+            if isinstance(st, ast.AnnAssign) and isinstance(st.target, ast.Name) and st.value is not None:
+                st = ast.Assign(targets=[st.target], value=st.value)
+            if isinstance(st, ast.Assign) and len(st.targets) == 1 and isinstance(st.targets[0], ast.Name):
+                x, v = st.targets[0].id, st.value
+                chain = enter_chain(v)
+                if chain is not None:
+                    if x != (st_["rd"] or "reader"):
+                        raise Unsupported(f"sub-reader bound to {x}")
+                    st_["rd"] = x
+                    ops += [f".enter {'true' if f else 'false'}" for f in chain]
+                elif isinstance(v, ast.Constant) and v.value is None:
+                    ops.append(f'.setNone "{x}"')
+                elif isinstance(v, ast.Call) and ast.unparse(v.func) == "ASN1Tag":
+                    st_["tags"][x] = _asn1_tag(v, clsnode)
+                elif ast.unparse(v) == "header.tag":
+                    st_["alias"][x] = "header.tag"
+                elif isinstance(v, ast.List) and not v.elts:
+                    # `xs = []`, `r = reader.read_set_of(...)`, `while r: info = Cls.unpack(r); xs.append(info)`
+                    if i + 2 >= len(sts):
+                        raise Unsupported("list initialisation without the set loop")
+                    a, w = sts[i + 1], sts[i + 2]
+                    if not (isinstance(a, ast.Assign) and len(a.targets) == 1 and isinstance(a.targets[0], ast.Name) and isinstance(a.value, ast.Call)
+                            and isinstance(a.value.func, ast.Attribute) and a.value.func.attr in ("read_set_of", "read_set")
+                            and isinstance(a.value.func.value, ast.Name) and a.value.func.value.id == st_["rd"] and not a.value.args):
+                        raise Unsupported(f"expected `r = reader.read_set_of()`, got {ast.unparse(a)[:60]}")
+                    use_header(a.value, allowed=("hint",))
+                    r2 = a.targets[0].id
+                    if not (isinstance(w, ast.While) and isinstance(w.test, ast.Name) and w.test.id == r2 and not w.orelse and len(w.body) == 2):
+                        raise Unsupported(f"expected `while {r2}:` with two statements")
+                    b0, b1 = w.body
+                    if not (isinstance(b0, ast.Assign) and len(b0.targets) == 1 and isinstance(b0.targets[0], ast.Name) and isinstance(b0.value, ast.Call)
+                            and isinstance(b0.value.func, ast.Attribute) and b0.value.func.attr == "unpack" and isinstance(b0.value.func.value, ast.Name)
+                            and [ast.unparse(z) for z in b0.value.args] == [r2] and not b0.value.keywords
+                            and ast.unparse(b1) == f"{x}.append({b0.targets[0].id})"):
+                        raise Unsupported(f"loop body {ast.unparse(w.body[0])[:50]}; {ast.unparse(w.body[1])[:50]}")
+                    ops.append(f'.setOfLoop "{x}" "{b0.value.func.value.id}"')
+                    i += 2
+                elif isinstance(v, ast.Call) and isinstance(v.func, ast.Attribute) and isinstance(v.func.value, ast.Name):
+                    recv, meth = v.func.value.id, v.func.attr
+                    if recv == st_["rd"] and meth == "peek_header" and not v.args and not v.keywords:
+                        if x != "header":
+                            raise Unsupported(f"peeked header bound to {x}")
+                        ops.append(".peek")
+                    elif recv == st_["rd"] and meth == "get_remaining_data" and not v.args and not v.keywords:
+                        ops.append(f'.remaining "{x}"')
+                    elif recv == st_["rd"] and meth in _READ_OPS:
+                        op = _READ_OPS[meth]
+                        if op == "readOctets":
+                            tags = list(v.args) + [kw.value for kw in v.keywords if kw.arg == "tag"]
+                            if len(tags) > 1 or any(kw.arg not in ("tag", "hint") for kw in v.keywords):
+                                raise Unsupported(f"arguments of {ast.unparse(v)[:60]}")
+                            ops.append(f'.readOctets "{x}" {tag_of(tags[0]) if tags else "none"}')
+                        elif op == "readGenTime":
+                            if v.args:
+                                raise Unsupported(f"arguments of {ast.unparse(v)[:60]}")
+                            ops.append(f'.readGenTime "{x}" {"true" if use_header(v) else "false"}')
+                        else:
+                            if v.args or use_header(v, allowed=("hint",)):
+                                raise Unsupported(f"arguments of {ast.unparse(v)[:60]}")
+                            ops.append(f'.{op} "{x}"')
+                    elif meth == "unpack" and [ast.unparse(z) for z in v.args] == [st_["rd"]]:
+                        ops.append(f'.sub "{x}" "{recv}" {"true" if use_header(v, allowed=("header",)) else "false"}')
+                    else:
+                        raise Unsupported(f"statement {ast.unparse(st)[:60]}")
+                else:
+                    raise Unsupported(f"statement {ast.unparse(st)[:60]}")
+            elif isinstance(st, ast.If):
+                t = st.test
+                if isinstance(t, ast.Name) and t.id == st_["rd"] and not st.orelse:
+                    b, r = stmts(st.body, False)
+                    ops.append(f'.ifMore [{", ".join(b)}]')
+                elif (isinstance(t, ast.Compare) and len(t.ops) == 1 and isinstance(t.ops[0], ast.NotEq) and isinstance(t.left, ast.Name)
+                      and isinstance(t.comparators[0], ast.Constant) and isinstance(t.comparators[0].value, int) and not st.orelse and len(st.body) == 1):
+                    ops.append(f'.requireInt "{t.left.id}" {t.comparators[0].value} {err_of(st.body[0])}')
+                elif top and i == len(sts) - 2 and not st.orelse and len(st.body) == 1 and isinstance(st.body[0], ast.Return):
+                    # `if <header test>: return Target.unpack(reader, header=header)` followed by `raise Err(...)`
+                    c, n = header_test(t)
+                    rv = st.body[0].value
+                    if not (isinstance(rv, ast.Call) and isinstance(rv.func, ast.Attribute) and rv.func.attr == "unpack" and isinstance(rv.func.value, ast.Name)
+                            and [ast.unparse(z) for z in rv.args] == [st_["rd"]] and use_header(rv, allowed=("header",))):
+                        raise Unsupported(f"dispatch {ast.unparse(rv)[:60]}")
+                    ret = f'.dispatch {c} {n} "{rv.func.value.id}" {err_of(sts[i + 1])}'
+                    i += 1
+                elif last and len(st.body) == 1 and isinstance(st.body[0], ast.Return) and len(st.orelse) == 1:
+                    # `if x == <const> and y == "<text>": return Cls(value)` `else: raise Err(...)`
+                    conds = []
+                    for cmp_ in (t.values if isinstance(t, ast.BoolOp) and isinstance(t.op, ast.And) else [t]):
+                        if not (isinstance(cmp_, ast.Compare) and len(cmp_.ops) == 1 and isinstance(cmp_.ops[0], ast.Eq) and isinstance(cmp_.left, ast.Name)):
+                            raise Unsupported(f"condition {ast.unparse(cmp_)[:60]}")
+                        rhs = cmp_.comparators[0]
+                        if isinstance(rhs, ast.Constant) and isinstance(rhs.value, str):
+                            conds.append(f'.textIs "{cmp_.left.id}" [{", ".join(str(b) for b in rhs.value.encode("utf-8"))}]')
+                        else:
+                            parts = ast.unparse(rhs).split(".")
+                            if len(parts) != 3 or parts[2] != "value":
+                                raise Unsupported(f"comparison with {ast.unparse(rhs)[:40]}")
+                            members = {s_.targets[0].id: s_.value.value for s_ in _class_node(tree, parts[0]).body
+                                       if isinstance(s_, ast.Assign) and isinstance(s_.targets[0], ast.Name) and isinstance(s_.value, ast.Constant)}
+                            conds.append(f'.oidIs "{cmp_.left.id}" {_oid_arcs(members[parts[1]])}')
+                    rv = st.body[0].value
+                    if not (isinstance(rv, ast.Call) and len(rv.args) == 1 and isinstance(rv.args[0], ast.Name) and not rv.keywords):
+                        raise Unsupported(f"return {ast.unparse(rv)[:60]}")
+                    ret = f'.guarded [{", ".join(conds)}] "{rv.args[0].id}" {err_of(st.orelse[0])}'
+                elif not st.orelse:
+                    c, n = header_test(t)
+                    b, r = stmts(st.body, False)
+                    ops.append(f'.ifHeader {c} {n} [{", ".join(b)}]')
+                else:
+                    raise Unsupported(f"if statement {ast.unparse(t)[:60]}")
+            elif isinstance(st, ast.Return) and last:
+                rv = st.value
+                if not (isinstance(rv, ast.Call) and isinstance(rv.func, ast.Name)):
+                    raise Unsupported(f"return {ast.unparse(st)[:60]}")
+                target = _class_node(tree, rv.func.id)
+                order = [f.target.id for f in target.body if isinstance(f, ast.AnnAssign) and isinstance(f.target, ast.Name)
+                         and not (isinstance(f.value, ast.Call) and any(kw.arg == "init" and isinstance(kw.value, ast.Constant) and kw.value.value is False for kw in f.value.keywords))
+                         and "ClassVar" not in ast.unparse(f.annotation)]
+                pairs = []
+                for j, a in enumerate(rv.args):
+                    if not isinstance(a, ast.Name) or j >= len(order):
+                        raise Unsupported(f"constructor argument {ast.unparse(a)[:40]}")
+                    pairs.append((order[j], a.id))
+                for kw in rv.keywords:
+                    if not isinstance(kw.value, ast.Name) or kw.arg is None:
+                        raise Unsupported(f"constructor keyword {kw.arg}")
+                    pairs.append((kw.arg, kw.value.id))
+                ret = ".build [" + ", ".join(f'("{k}", "{x}")' for k, x in pairs) + "]"
+            else:
+                raise Unsupported(f"statement {ast.unparse(st)[:60]}")
+            i += 1
+        return ops, ret
+    ops, ret = stmts(body, True)
+    if ret is None:
+        raise Unsupported("no return statement of a known form at the end")
+    return ops, ret
+
+
+def generate_rprog(k: dict) -> dict:
+    path = os.path.join(SRC, k["file"])
+    out = {"name": k["name"], "file": k["file"], "func": k["func"]}
+    try:
+        tree = ast.parse(open(path).read())
+        fn = find_function(tree, k["func"])
+        out["line"] = fn.lineno
+        ops, ret = rprog(fn, _class_node(tree, k["func"].split(".")[0]), tree)
+        out["python"] = f"{k['func']}: reader program of {len(ops)} top-level statement(s)"
+    except (Unsupported, OSError, SyntaxError, ValueError, LookupError) as e:
+        out["status"] = "unsupported"
+        out["reason"] = f"{type(e).__name__}: {e}"
+        p = os.path.join(GEN_DIR, k["name"] + ".lean")
+        if os.path.exists(p):
+            os.remove(p)
+        return out
+    name = k["name"]
+    body = "([" + ", ".join(ops) + "],\n   " + ret + ")"
+    lean = f"""-- GENERATED by harness/extract.py from src/dpapi_ng/{k['file']}:{out['line']} ({k['func']}) — do not edit.
+import DpapiNg.Proofs.RProg
+namespace DpapiNg.Gen
+open DpapiNg DpapiNg.RProg
+
+def {name} : List Op × Ret :=
+  {body}
+
+theorem {name}_eq : {name} = {k['model']} := by
+  rfl
+
+end DpapiNg.Gen
+"""
+    os.makedirs(GEN_DIR, exist_ok=True)
+    p = os.path.join(GEN_DIR, name + ".lean")
+    old = open(p).read() if os.path.exists(p) else None
+    if old != lean:
+        with open(p, "w") as f:
+            f.write(lean)
+    out.update(status="generated", lean_path=p, lean_def=body.replace("\n   ", " "), module=f"DpapiNg.Gen.{name}", sha=hashlib.sha256(lean.encode()).hexdigest()[:16])
+    return out
+
+
 def register(k: dict) -> None:
     KERNELS.append(k)
 
@@ -1265,6 +1571,8 @@ def generate(k: dict) -> dict:
         return generate_fields(k)
     if k.get("kind") == "wprog":
         return generate_wprog(k)
+    if k.get("kind") == "rprog":
+        return generate_rprog(k)
     path = os.path.join(SRC, k["file"])
     out = {"name": k["name"], "file": k["file"], "func": k["func"]}
     try:
